@@ -28,6 +28,12 @@ def config(bits, cache0, tp):
 
 def known_key(v):
     cf = v.get("config") or {}
+    c = v.get("case") or {}
+    # racy: declared file order + ORDER BY .. LIMIT + >1 file group + work stealing (default on)
+    if v.get("query_kind") == "topk" and cf.get("declare_order") and cf.get("work_stealing", True) and cf.get("tp", 1) >= 2 \
+            and c.get("n_files", 1) >= 2 and all(a in ("sorted", "clustered") for a in (c.get("arrange") or [])[:c.get("n_files", 1)]) \
+            and not v.get("error"):
+        return "declared-file-order:order-by-limit:limit-pushdown-clears-preserve-order:work-stealing-race"
     if "Invalid offset in sparse column chunk data" in (v.get("error") or "") and cf.get("pushdown_filters") \
             and not cf.get("force_filter_selections") and not cf.get("predicate_cache_zero"):
         return "pushdown-row-filter:mask-selection-over-sparsely-fetched-pages:invalid-offset"
